@@ -315,9 +315,16 @@ func runC07(b *fw.B) {
 			b.Inc("chain_states")
 			root := c.Sp.S.StateRoot(c.Ref)
 			b.Nontrivial(root[:])
-			return compareAssignments(b, func(sig, what string) {
+			if !compareAssignments(b, func(sig, what string) {
 				b.Violate(sig, what+" — scenario "+sc.String(), map[string]any{"scenario": sc.String()})
-			}, c.ZSpec, c.Sp, c.Ref, c.Z, epc, where)
+			}, c.ZSpec, c.Sp, c.Ref, c.Z, epc, where) {
+				return false
+			}
+			// the context that accompanied the state along the chain reports assignments too
+			b.Inc("chain_states_long_lived_context")
+			return compareAssignments(b, func(sig, what string) {
+				b.Violate("long-lived-context/"+sig, "(context carried along the chain) "+what+" — scenario "+sc.String(), map[string]any{"scenario": sc.String()})
+			}, c.ZSpec, c.Sp, c.Ref, c.Z, c.Epc, where)
 		}}
 		runChain(b, sc, hooks, func(m *sim.Mismatch, trace []string) {
 			if m.Kind != "harness" && m.Kind != "genesis" {
